@@ -229,7 +229,7 @@ func properties() map[string]*Property {
 			"utf8.EncodeRune / utf8.RuneLen / utf16.IsSurrogate / utf16.DecodeRune enter with their exact definitions as assumed contracts (standard library, four small pure functions)",
 			"the string machines are proved in the top-level context (spec state InValue.Str@top, depth 0), which is how ReadString/ReadStringBytes and UnescapeStringContent 'on its own' use them; other contexts are the same sub-automaton and are not re-proved",
 		}, specAssume...),
-		Subset: "grammar and offsets: ReadStringBytes / ReadString succeed exactly when the first token is a well-formed RFC 8259 string (closing quote present, no raw byte below 0x20, only the RFC escapes incl. \\uXXXX with four hex digits; surrogate pairs consumed as 12 bytes) and return the offset just after the closing quote; unescapeStringContent/UnescapeStringContent succeed on the bytes between the quotes of such a token and consume all of them; destination prefix preserved (C16). NOT covered: that the produced bytes equal the RFC decoding of the content (content fold over utf8 encodings; listed as not built in DESIGN.md)",
+		Subset: "grammar and offsets: ReadStringBytes / ReadString succeed exactly when the first token is a well-formed RFC 8259 string (closing quote present, no raw byte below 0x20, only the RFC escapes incl. \\uXXXX with four hex digits; surrogate pairs consumed as 12 bytes) and return the offset just after the closing quote; unescapeStringContent/UnescapeStringContent succeed on the bytes between the quotes of such a token and consume all of them; destination prefix preserved (C16). unescapeUnicodeChar appends exactly the UTF-8 encoding of the escape's rune (surrogate pair combined and 12 bytes consumed exactly when a high-surrogate escape is followed by a low-surrogate escape, U+FFFD for an unpaired surrogate) and getu4 returns the value of the four hex digits. NOT covered: that the machines put the right byte for each two-character escape and copy the unescaped segments to the right place (the content fold over the whole token: output registers of the spec run exist in rjv, but the quantified machine invariants were not discharged within the solver budget - see DESIGN.md)",
 	}
 	pureFns := []string{"countWhitespace", "skipFloatExp", "skipFloatDec", "getu4", "NextTokenType", "NextToken", "readNull", "readBool", "ReadNull", "ReadBool", "nullOrBust"}
 	numFns := []string{"ReadUint64", "ReadUint32", "ReadInt64", "ReadInt32", "ReadInt", "ReadUint", "ReadFloat64",
